@@ -22,6 +22,7 @@ type vfServer struct {
 	addr  string
 	up    bool
 	conns []*vfBackend
+	resetNext bool // the next accepted connection is reset right away (the node crashes while accepting)
 	// native
 	mu   sync.Mutex
 	ln   net.Listener
@@ -48,6 +49,11 @@ func (s *vfServer) dial(network, address string, timeout time.Duration) (net.Con
 		return nil, errors.New("vf: connection refused")
 	}
 	b := vfNewBackend()
+	if s.resetNext {
+		s.resetNext = false
+		b.Close()
+		return b, nil
+	}
 	s.conns = append(s.conns, b)
 	return b, nil
 }
@@ -72,6 +78,12 @@ func (s *vfServer) setUp(up bool) {
 					return
 				}
 				s.mu.Lock()
+				if s.resetNext {
+					s.resetNext = false
+					s.mu.Unlock()
+					c.Close()
+					continue
+				}
 				s.real = append(s.real, c)
 				s.mu.Unlock()
 				go func() {
@@ -224,6 +236,40 @@ func VfC09_UpstreamStop() {
 		nd.Assert(nd.AllFinished(), "no goroutine of the upstream remains")
 		nd.Cover("stopped")
 	}
+}
+
+// VfC07_ImmediateReset: the node resets a connection right after accepting it (it crashes while
+// the proxy is still registering the new connection). Whatever the interleaving of the dying
+// connection's clean-up with its registration, the dead connection does not stay in the table:
+// the next request is served over a new connection.
+func VfC07_ImmediateReset() {
+	nd.ConcreteClock(true)
+	nd.VisibleAtomics(true)
+	srv := vfNewServer()
+	u, _ := vfNewUpstream(nil)
+	srv.setUp(true)
+	srv.resetNext = true
+	nd.PanicLabel("immediate-reset")
+	first := newSimpleRequest(newStringArray("ping"))
+	u.MakeRequestToHost(srv.addr, first)
+	nd.Quiesce()
+	nd.Assert(vfDone(first.done), "the request that met the reset is answered")
+	if !vfDone(first.done) {
+		return
+	}
+	nd.VisibleAtomics(false)
+	req := newSimpleRequest(newStringArray("ping"))
+	u.MakeRequestToHost(srv.addr, req)
+	nd.Quiesce()
+	nd.Assert(vfDone(req.done), "the next request is answered")
+	if !vfDone(req.done) {
+		return
+	}
+	nd.Assert(req.Response().Type != Error, "after a connection that was reset while being registered, the next request is served over a new connection (the backend is reachable)")
+	_, stale := u.loadClients()[srv.addr]
+	nd.Assert(!stale || len(srv.conns) == 1, "no dead connection stays in the table")
+	nd.Cover("healed-after-immediate-reset")
+	close(u.quit)
 }
 
 // VfC07_ConcurrentCallers: two requests for a backend without a connection arrive at the same
